@@ -254,14 +254,15 @@ PROPS['C01'] = {
     ],
 }
 PROPS['C11'] = {
-    'units': ['rename'],
-    'functions': list(PROPS['C10']['functions']),
+    'units': ['rename', 'parsers'],
+    'functions': list(PROPS['C10']['functions']) + ['logic_var.rs::make_logic_var'],
     'oracles': {'*': 'c11_rename'},
     'bounded': [('c11_rename', 'the statement itself, BOUNDED and metamorphic: 1500 random stratified programs per seed (with cuts, not, print) and the same programs with the variables of every rule renamed by a fresh bijection per rule '
                                'drawn from a pool that contains the query\'s own variable names and names shared between rules: same answers, same order, same output (names of unbound variables normalised)')],
     'not_covered': [
         'PARTIAL.  PROVED (unit rename, shared with C10): every use of a clause goes through get_rule, whose result has the shape of the stored clause with ONE fresh id per variable name across head and body and no id shared with any earlier use - '
         'so the search never sees the names, only ids that are fresh per use (#shape, #consistent); make_query does the same for the query',
+        'PROVED (unit parsers): a variable is parsed to exactly the name that was written, with no id (#var_named_as_written): names that differ are different variables whatever they look like (`$V_1` / `$V_2`)',
         'NOT PROVED: that answers, order and output are functions of the clause shapes only is the whole-search statement C01 composed with the above; it is checked bounded by the metamorphic oracle',
     ],
 }
